@@ -269,7 +269,7 @@ class FindTuple(_ast_util.NodeVisitor):
             )
             lui = self.listener.undeclared_identifiers
             self.listener.undeclared_identifiers = lui.union(
-                p.undeclared_identifiers
+                p.undeclared_identifiers.difference(p.declared_identifiers)
             )
 
 
